@@ -170,7 +170,7 @@ pub fn case(ctx: &mut Ctx, idx: u64) {
     ctx.max("max_ulps_observed", if u == u64::MAX { 0 } else { u });
     if u > 4 {
         let e = &spec.mods.extra;
-        let pred = if mode == GameMode::Mania && spec.mods.repr == sets::Repr::Lazer && (e.ho || e.invert || e.random.is_some_and(|s| s.is_some())) {
+        let pred = if mode == GameMode::Mania && spec.mods.is_lazer_like() && (e.ho || e.invert || e.random.is_some_and(|s| s.is_some())) {
             "mods-transform-map(HO|IN|RD)"
         } else {
             "-"
